@@ -367,8 +367,12 @@ func deferStageOrder(r *fw.Run) {
 		{"deferAlignTypenameScope", "deferPopulateParentIds", "parent ids are computed from the aligned tree (the source comment says MUST be two stages in this order)"},
 	} {
 		ia, ib := pos(c.a), pos(c.b)
-		if ia < 0 || ib < 0 {
-			r.Error("C10-R5: stage %s or %s not found in setupOperationWalkers (found stages: %v)", c.a, c.b, order)
+		if ib < 0 {
+			r.Note("C10-R5: stage rule %s is not applied in setupOperationWalkers any more; constraint %s<%s is vacuous", c.b, c.a, c.b)
+			continue
+		}
+		if ia < 0 {
+			r.Fail("C10-R5", "setupOperationWalkers/"+c.a+"<"+c.b, fi.Pos(), c.a+" is registered on an earlier walker stage than "+c.b, c.b+" is applied but "+c.a+" is not applied to any walker stage at all: "+c.why)
 			continue
 		}
 		strict := ia < ib
